@@ -589,7 +589,7 @@ def run_prefix(sc, m, kw):
     kw = dict(kw)
     kw.pop('increments', None)
     try:
-        with InitialSize(kn.get('initial_size', 10000)), \
+        with InitialSize(kn.get('initial_size', 10000)), KernelShim(), \
                 StepBudget(4 * step_budget_for(sc, m)):
             if sc['filter'] == 'feedback':
                 h = max(2, len(m['increments']) // 2)
